@@ -53,3 +53,118 @@ Definition tern_shape (c T : circuit) (μ : gmap string string) : Prop :=
   inputs T = inputs c ∪ set_map (mu_at μ) (inputs c).
 Global Instance tern_shape_dec c T μ : Decision (tern_shape c T μ). Proof. unfold tern_shape. apply _. Defined.
 Definition shapeb (c T : circuit) (μ : gmap string string) : bool := bool_decide (tern_shape c T μ).
+
+(* ================= boolean gates over fan-in sets (all arities) ================= *)
+Lemma elem_fmap_elements {A} (f : string → A) (s : gset string) (a : A) : a ∈ f <$> elements s ↔ ∃ p, p ∈ s ∧ f p = a.
+Proof. rewrite elem_of_list_fmap. setoid_rewrite elem_of_elements. naive_solver. Qed.
+Lemma fold_andb_false (l : list bool) : foldr andb true l = false ↔ false ∈ l.
+Proof.
+  induction l as [|[] l IH]; simpl.
+  - split; [done|]. by intros ?%elem_of_nil.
+  - rewrite IH, elem_of_cons. naive_solver.
+  - rewrite elem_of_cons. naive_solver.
+Qed.
+Lemma fold_orb_true (l : list bool) : foldr orb false l = true ↔ true ∈ l.
+Proof.
+  induction l as [|[] l IH]; simpl.
+  - split; [done|]. by intros ?%elem_of_nil.
+  - rewrite elem_of_cons. naive_solver.
+  - rewrite IH, elem_of_cons. naive_solver.
+Qed.
+Lemma gv_and_false v s : foldr andb true (v <$> elements s) = false ↔ ∃ p, p ∈ s ∧ v p = false.
+Proof. by rewrite fold_andb_false, elem_fmap_elements. Qed.
+Lemma gv_or_true v s : foldr orb false (v <$> elements s) = true ↔ ∃ p, p ∈ s ∧ v p = true.
+Proof. by rewrite fold_orb_true, elem_fmap_elements. Qed.
+Lemma gv_And v s : gate_val And v s = true ↔ ∀ p, p ∈ s → v p = true.
+Proof.
+  unfold gate_val; simpl. destruct (foldr andb true _) eqn:E.
+  - split; [|done]. intros _ p Hp. destruct (v p) eqn:Ep; [done|].
+    assert (foldr andb true (v <$> elements s) = false) by (apply gv_and_false; eauto). congruence.
+  - apply gv_and_false in E as (p & Hp & Ep). split; [done|]. intros H. rewrite H in Ep; done.
+Qed.
+Lemma gv_Or v s : gate_val Or v s = true ↔ ∃ p, p ∈ s ∧ v p = true.
+Proof. unfold gate_val; simpl. apply gv_or_true. Qed.
+Lemma gv_Nor v s : gate_val Nor v s = true ↔ ∀ p, p ∈ s → v p = false.
+Proof.
+  unfold gate_val; simpl. rewrite negb_true_iff. destruct (foldr orb false _) eqn:E.
+  - apply gv_or_true in E as (p & Hp & Ep). split; [done|]. intros H. rewrite H in Ep; done.
+  - split; [|done]. intros _ p Hp. destruct (v p) eqn:Ep; [|done].
+    assert (foldr orb false (v <$> elements s) = true) by (apply gv_or_true; eauto). congruence.
+Qed.
+Lemma gv_And2 v a b : gate_val And v {[a; b]} = v a && v b.
+Proof. apply eq_true_iff_eq. rewrite gv_And, andb_true_iff. set_solver. Qed.
+Lemma gv_Nor2 v a b : gate_val Nor v {[a; b]} = negb (v a || v b).
+Proof. apply eq_true_iff_eq. rewrite gv_Nor, negb_true_iff, orb_false_iff. set_solver. Qed.
+Lemma gv_single t v p : gate_val t v {[p]} = xorb (g_inv t) (g_op t (v p) (g_unit t)).
+Proof. unfold gate_val. by rewrite elements_singleton. Qed.
+
+(* ================= Kleene folds (all arities) ================= *)
+Section kfold.
+  Context (x b : string → bool).
+  Definition K3 (p : string) : tern := if x p then TX else B (b p).
+  Lemma kand_fold l : foldr kand T1 (K3 <$> l) =
+    if existsb (λ p, negb (x p) && negb (b p)) l then T0 else if existsb x l then TX else T1.
+  Proof.
+    induction l as [|a l IH]; [done|]. simpl. rewrite IH. unfold K3.
+    destruct (x a), (b a), (existsb _ l), (existsb x l); reflexivity.
+  Qed.
+  Lemma kor_fold l : foldr kor T0 (K3 <$> l) =
+    if existsb (λ p, negb (x p) && b p) l then T1 else if existsb x l then TX else T0.
+  Proof.
+    induction l as [|a l IH]; [done|]. simpl. rewrite IH. unfold K3.
+    destruct (x a), (b a), (existsb _ l), (existsb x l); reflexivity.
+  Qed.
+  Lemma kxor_fold l : foldr kxor T0 (K3 <$> l) = if existsb x l then TX else B (foldr xorb false (b <$> l)).
+  Proof.
+    induction l as [|a l IH]; [done|]. simpl. rewrite IH. unfold K3.
+    destruct (x a), (b a), (existsb x l), (foldr xorb false _); reflexivity.
+  Qed.
+End kfold.
+Lemma existsb_elements (f : string → bool) (s : gset string) : existsb f (elements s) = true ↔ ∃ p, p ∈ s ∧ f p = true.
+Proof. rewrite existsb_exists. setoid_rewrite <- elem_of_list_In. setoid_rewrite elem_of_elements. done. Qed.
+Lemma existsb_elements_false (f : string → bool) (s : gset string) : existsb f (elements s) = false ↔ ∀ p, p ∈ s → f p = false.
+Proof.
+  destruct (existsb f (elements s)) eqn:E.
+  - apply existsb_elements in E as (p & Hp & Ep). split; [done|]. intros H. rewrite H in Ep; done.
+  - split; [|done]. intros _ p Hp. destruct (f p) eqn:Ep; [|done].
+    assert (existsb f (elements s) = true) by (apply existsb_elements; eauto). congruence.
+Qed.
+Lemma B_negb b : B (negb b) = knot (B b). Proof. by destruct b. Qed.
+
+(* ================= one lemma per gate family ================= *)
+Section family.
+  Context (v : val) (m : string → string).
+  Definition Kv (n : string) : tern := if v (m n) then TX else B (v n).
+  Lemma Kv_K3 l : Kv <$> l = K3 (λ p, v (m p)) v <$> l. Proof. done. Qed.
+
+  (* and / nand: X iff some fan-in is X and none is a definite 0 *)
+  Lemma and_family t n (fi : gset string) : t = And ∨ t = Nand →
+    v n = gate_val t v fi →
+    (v (m n) = true ↔ (∃ p, p ∈ fi ∧ v (m p) = true) ∧ ∀ p, p ∈ fi → v (m p) = false → v p = true) →
+    Kv n = kgate t (Kv <$> elements fi).
+  Proof.
+    intros Ht Hn Hx.
+    assert (Hand : gate_val And v fi = true ↔ ∀ p, p ∈ fi → v p = true) by apply gv_And.
+    assert (Hcore : (if v (m n) then TX else B (gate_val And v fi)) = foldr kand T1 (Kv <$> elements fi)).
+    { rewrite Kv_K3, kand_fold.
+      destruct (existsb (λ p, negb (v (m p)) && negb (v p)) (elements fi)) eqn:E0.
+      - apply existsb_elements in E0 as (p & Hp & [E1 E2]%andb_true_iff). apply negb_true_iff in E1, E2.
+        destruct (v (m n)) eqn:Em.
+        + destruct Hx as [Hx _]. destruct (Hx eq_refl) as [_ H]. rewrite (H p Hp E1) in E2. done.
+        + destruct (gate_val And v fi) eqn:Eg; [|done]. rewrite (proj1 Hand eq_refl p Hp) in E2. done.
+      - assert (H0 : ∀ p, p ∈ fi → v (m p) = false → v p = true).
+        { intros p Hp Hxp. pose proof (proj1 (existsb_elements_false _ _) E0 p Hp) as H. simpl in H.
+          rewrite Hxp in H. simpl in H. by apply negb_false_iff in H. }
+        destruct (existsb (λ p, v (m p)) (elements fi)) eqn:EX.
+        + apply existsb_elements in EX. rewrite (proj2 Hx); [done|]. split; done.
+        + pose proof (proj1 (existsb_elements_false _ _) EX) as HX.
+          destruct (v (m n)) eqn:Em.
+          * destruct Hx as [Hx _]. destruct (Hx eq_refl) as [(p & Hp & Ep) _]. rewrite (HX p Hp) in Ep. done.
+          * rewrite (proj2 Hand); [done|]. intros p Hp. apply H0; auto. }
+    unfold Kv at 1. destruct Ht as [-> | ->]; unfold kgate; simpl; rewrite <- Hcore, Hn.
+    - done.
+    - unfold gate_val at 1. simpl. fold (gate_val And v fi) . destruct (v (m n)); [done|].
+      change (foldr andb true (v <$> elements fi)) with (xorb false (foldr andb true (v <$> elements fi))).
+      fold (gate_val And v fi). apply B_negb.
+  Qed.
+End family.
